@@ -74,7 +74,7 @@ def lift(P, newname, pos, newfaces, periodic, Dnew, unew):
                 e[side][k] = a2.tolist()
         bc.append(e)
     shp = bc_shape(dims_of(Q['faces']), pos)
-    newent = dict(periodic='both' if periodic else 'none')
+    newent = dict(periodic=(periodic if isinstance(periodic, str) else 'both') if periodic else 'none')
     for side in ('lo', 'hi'):
         newent[side] = dict(kind='N', a=np.ones(shp).tolist(), b=np.zeros(shp).tolist(), c=np.zeros(shp).tolist())
     bc.insert(pos, newent)
@@ -193,6 +193,8 @@ def _lift_case(draw):
         n = draw(st.integers(1, 3))
         sp = draw(st.sampled_from(['uniform', 'random', 'ratio']))
         per = kind != 'r' and draw(st.booleans())
+        if per:
+            per = draw(st.sampled_from(['both', 'lo', 'hi']))
         nf = draw(gen.axis_faces(kind, n, sp))
         if per:
             nf = problem.symmetric_ends(nf)
